@@ -93,9 +93,11 @@ func (e *env) checkInput(r *vh.Rng, v iox.Variant, in []byte, scheds []iox.Sched
 }
 
 type corpusCase struct {
-	Variant  string `json:"variant"`
-	InputHex string `json:"input_hex"`
-	Note     string `json:"note"`
+	Variant  string        `json:"variant"`
+	InputHex string        `json:"input_hex"`
+	A        *iox.Schedule `json:"schedule_a,omitempty"` // both given: exactly these two schedules
+	B        *iox.Schedule `json:"schedule_b,omitempty"`
+	Note     string        `json:"note"`
 }
 
 func (e *env) variant(name string) (iox.Variant, bool) {
@@ -115,6 +117,7 @@ func main() {
 			"non-trivial = at least one schedule puts a chunk boundary strictly inside a multi-byte unit (UTF-8 sequence, CR LF, BOM, multi-byte delimiter, release pair); distinct by (variant, input bytes)")
 	e := &env{sum: sum, variants: iox.Variants(), schemas: map[string]*vh.LoggedSchema{}}
 	cw := vh.NewCaseWriter(o, "C09", "Model.Chunk", "ccase", "check_case")
+	cw.PerFile = 24
 
 	// ---- replay of one recorded case ----
 	if o.Replay != "" {
@@ -167,7 +170,11 @@ func main() {
 			}
 			in, _ := hex.DecodeString(cc.InputHex)
 			interior := iox.Interior(in, v.Tokens)
-			nt, _ := e.checkInput(r, v, in, iox.Schedules(r, in, interior), interior)
+			scheds := iox.Schedules(r, in, interior)
+			if cc.A != nil && cc.B != nil {
+				scheds = []iox.Schedule{*cc.A, *cc.B}
+			}
+			nt, _ := e.checkInput(r, v, in, scheds, interior)
 			sum.Count("corpus:"+cc.Variant+":"+cc.InputHex, nt)
 			sum.Hist("corpus")
 		}
